@@ -288,6 +288,17 @@ func c09Run(c *caseCtx) (res caseResult) {
 		}
 		if !ok {
 			cnt := sentinel.count(func(x any) bool { _, is := x.(actor.DeadLetterEvent); return is })
+			if cnt <= bound {
+				// decide on state: does a FRESH subscriber still get events? Then the stream works and has dropped
+				// its old subscribers (they never unsubscribed)
+				fresh := &eventMonitor{}
+				fp := e.Spawn(func() actor.Receiver { return fresh }, "mon", actor.WithID(fmt.Sprintf("fresh%d", round)))
+				e.Subscribe(fp)
+				if fresh.flush(e, wd/3) {
+					res.violate("subscribers that never unsubscribed stopped receiving events (a freshly subscribed monitor does receive them): the event stream lost its subscribers, undeliverable messages now surface to nobody (%s)", res.Desc)
+					return
+				}
+			}
 			if cnt > bound {
 				res.violate("the event stream does not settle: %d events after %d sends and still growing (bound %d)", cnt, n, bound)
 			} else {
